@@ -58,6 +58,36 @@ def interpolate(s, m):
         s = s[j + 1:]
 
 
+
+def _npm_unplaceable(case):
+    """first update of an `npm` case that equals none of the requirements package.json lists — (real name, alias key, version), an
+    "npm:<name>@<version>" value being an alias of <name> under the entry's key — or None. Independent of the Lean model."""
+    t = case.split(' ')
+    if len(t) < 5 or t[4] == '-':
+        return None
+    hx = lambda h: bytes.fromhex(h).decode('utf-8', 'surrogateescape') if h not in ('', '_') else ''
+    reqs = set()
+    for sec in t[1:4]:
+        if sec == '-':
+            continue
+        for e in sec.split(','):
+            k, _, v = e.partition(':')
+            k, v = hx(k), hx(v)
+            q = (k, None, v)
+            if v.startswith('npm:'):
+                r0 = v[4:]
+                i = r0.rfind('@')
+                nm, ver = (r0[:i], r0[i + 1:]) if i > 0 else (r0, '')
+                if nm:
+                    q = (nm, k, ver)
+            reqs.add(q)
+    for u in t[4].split(','):
+        name, ka, frm, to = u.split(':')
+        q = (hx(name), None if ka == '~' else hx(ka), hx(frm))
+        if q not in reqs:
+            return '%s%s %s -> %s' % (q[0], '' if q[1] is None else ' (alias %s)' % q[1], q[2], hx(to))
+    return None
+
 def run(ctx):
     ctx.trusted = ['Lean 4.33.0 kernel', 'axioms: propext, Quot.sound, Classical.choice at most (see theorems.*.axioms)',
                    'gjson.GetBytes / sjson.SetBytes address the literal key the path component parses to and rewrite only that value (output bytes are compared with a re-rendering on every case)',
@@ -108,6 +138,12 @@ def run(ctx):
                 return 'package.json Write: ' + r
             if fm.get('rc') == '0' and fm.get('wf') == '1':
                 return 'package.json Read: an entry of the file is not among the requirements (an npm: alias and the plain entry of its package are two requirements)'
+            if r == 'ok':
+                # computed here from the case alone (no model): an update that matches no entry of the file as Read reports them
+                # (name, alias, version) cannot have been applied, so Write must not have returned nil (seed C13m)
+                lost = _npm_unplaceable(case)
+                if lost:
+                    return 'package.json Write returned nil, but the update %s matches no entry of the file: success reported without having applied it' % lost
             if r == 'ok' and fm.get('wf') == '1':
                 if fi.get('reqs') != fm.get('spec'):
                     return 'package.json: re-read requirements differ from substitute(original, updates)'
